@@ -272,6 +272,19 @@ def run(ctx, R):
     R.floor("occurs-check binds/unifications in instruction handlers", n_oc, 6)
     R.floor("instruction handlers using the raw binder", raw_binds(F, R), 3)
     R.floor("Str arms of tag dispatches", blind_structure_reads(F, R), 70)
+    # ---- cells of different kinds never unify: the helper for arena constants may bind a variable, delegate to the
+    # number helpers, or fail; it never decides success by looking inside the other cell (a stream used to "unify" with
+    # its alias atom from one side only, without the two becoming identical)
+    uc = [p for p, it in F.items.items() if it["file"] == "src/machine/unify.rs" and p.endswith("Unifier::unify_constant")]
+    if len(uc) != 1:
+        raise AnchorLost("Unifier::unify_constant (%d)" % len(uc))
+    fails = [x for x in walk(F.hir(uc[0])["body"]) if x["k"] == "Assign" and x["lhs"].get("k") == "Field" and x["lhs"].get("name") == "fail"]
+    cond = [x["ln"] for x in fails if not (x["rhs"].get("k") == "Lit" and x["rhs"].get("lit", {}).get("bool") is True)]
+    if not fails:
+        raise AnchorLost("unify_constant no longer assigns fail")
+    R.ob("C10:unify_constant:a-constant-unifies-only-with-itself-or-a-variable", not cond,
+         "unify_constant computes the fail flag from the contents of the two cells (lines %s): two non-variable cells of different kinds must not unify "
+         "(current_output(S), user_output = S succeeded while S = user_output failed, and S == user_output was false after the success)" % cond, F.where(uc[0]))
 
 
 def _is_assign_target(x, stmt):
